@@ -23,12 +23,18 @@ func Run(c *hx.Ctx) {
 	if len(c.Args) >= 5 && c.Args[0] == "upchild" {
 		upChild(c.Args[1:]) // never returns
 	}
+	if len(c.Args) >= 4 && c.Args[0] == "rhchild" {
+		rhChild(c.Args[1:]) // never returns
+	}
 	only := ""
 	if len(c.Args) >= 2 && c.Args[0] == "only" {
 		only = c.Args[1]
 	}
 	if only == "" || only == "transfer" {
 		runTransfer(c)
+	}
+	if only == "" || only == "st" {
+		runStartTiming(c)
 	}
 	if only == "" || only == "stage" {
 		runStage(c)
@@ -61,6 +67,10 @@ func Run(c *hx.Ctx) {
 			runTF(c, genTF(c, i))
 		}
 	}
+	if only == "" || only == "hw" {
+		initEnv()
+		runHandoverWrites(c)
+	}
 	if only == "" || only == "vl" {
 		initEnv()
 		for _, g := range fixedVL {
@@ -69,6 +79,9 @@ func Run(c *hx.Ctx) {
 		for i := 0; i < c.N(12, 30); i++ {
 			runVL(c, genVL(c, i))
 		}
+	}
+	if only == "" || only == "rh" {
+		runReconfigure(c)
 	}
 	if only == "" || only == "up" {
 		// boundary replayed on every run: inherited bytes that fill the new read buffer exactly (minimised past failure)
